@@ -79,5 +79,8 @@ def handleScore (j : Json) : R Json := do
 
 /-- protocol handlers of property C05: (op name, handler) -/
 def handlersC05 : List (String × (Json → R Json)) :=
-  [("collect", handleCollect), ("idxs", handleIdxs), ("razor_pick", handleRazorPick), ("score", handleScore)]
+  [("collect", handleCollect), ("idxs", handleIdxs), ("razor_pick", handleRazorPick), ("score", handleScore),
+   -- the same handlers under names no other property can shadow (used by harness/props/C05.py)
+   ("c05_collect", handleCollect), ("c05_idxs", handleIdxs), ("c05_razor_pick", handleRazorPick),
+   ("c05_score", handleScore)]
 end PgFdr.Driver
